@@ -48,6 +48,9 @@ type Request struct {
 	// node count is then read from the info lines and from the poll observer.
 	NoCounters bool `json:"no_counters,omitempty"`
 	PollCap    int  `json:"poll_cap,omitempty"` // overrides the harness safety cap on polls for deliberately long searches
+	// OptOrder != 0: the options are handed to Go in another order (a
+	// permutation derived from this number); the order is not part of a request.
+	OptOrder int `json:"opt_order,omitempty"`
 }
 
 // SearchResult is everything observable about one finished search.
@@ -329,6 +332,16 @@ func runGo(s *search.Search, b *board.Board, req Request, sched Sched, co *coop,
 		opts = append(opts, search.WithOutput(a.lines))
 	} else {
 		opts = append(opts, search.WithOutput(nil))
+	}
+	if req.OptOrder != 0 {
+		x := uint64(req.OptOrder)*0x9E3779B97F4A7C15 + 1
+		for i := len(opts) - 1; i > 0; i-- {
+			x ^= x << 13
+			x ^= x >> 7
+			x ^= x << 17
+			j := int(x % uint64(i+1))
+			opts[i], opts[j] = opts[j], opts[i]
+		}
 	}
 	if req.StopAtPoll == 0 {
 		a.closeStop()
